@@ -311,6 +311,31 @@ let handle (toks : string list) : string =
       String.concat "," (List.map (fun q -> Printf.sprintf "%d:%s=%s" (int_of_n (fst q)) (h (snd q))
         (match fin q with None -> "none" | Some (TOld i) -> "old" ^ string_of_int (int_of_n i) | Some (TTorn t) -> "torn" ^ string_of_int (int_of_n t)
                         | Some (TNew t) -> "new" ^ string_of_int (int_of_n t))) uni)
+  | ["CP"; flags; srcs; dinit; now; steps] ->
+      (* crash states of one file's program: flags so,it,ck,big ; src size:mtime:content ; dest a | content:complete:size:mtime ;
+         steps o0 o1 r1 l0 l1 w0:n w1:n W0 W1 m0 m1 R U separated by ',' -> class membership and the state after every prefix *)
+      let kv = kv_of flags in
+      let g k = List.assoc k kv in
+      let c = { c_delete = false; c_force_delete = false; c_threshold = z_of_int 50; c_dry_run = false;
+                c_ignore_times = (g "it" = "1"); c_size_only = (g "so" = "1"); c_checksum = (g "ck" = "1");
+                c_big = nint (g "big"); c_max_errors = n_of_int 100 } in
+      let e = (match String.split_on_char ':' srcs with
+        | [sz; mt; ct] -> { se_path = []; se_is_dir = false; se_size = nint sz; se_mtime = zint mt; se_content = nint ct; se_sparse = false }
+        | _ -> failwith "cp src") in
+      let d0 = (if dinit = "a" then CAbsent else match String.split_on_char ':' dinit with
+        | [ct; k; sz; mt] -> CFile (nint ct, (k = "1"), nint sz, zint mt) | _ -> failwith "cp dest") in
+      let step t = (match String.split_on_char ':' t with
+        | ["o0"] -> SOpen false | ["o1"] -> SOpen true | ["r1"] -> SRemove true | ["r0"] -> SRemove false | ["l0"] -> SSetLen false | ["l1"] -> SSetLen true
+        | ["w0"; n] -> SWrite (false, nint n) | ["w1"; n] -> SWrite (true, nint n) | ["W0"] -> SWriteLast false | ["W1"] -> SWriteLast true
+        | ["m0"] -> SMeta false | ["m1"] -> SMeta true | ["R"] -> SRename | ["U"] -> SUtime | _ -> failwith "cp step") in
+      let p = if steps = "-" then [] else List.map step (String.split_on_char ',' steps) in
+      let s0 = { cs_dest = d0; cs_temp = CAbsent } in
+      let show = function CAbsent -> "a" | CFile (ct, k, sz, mt) -> Printf.sprintf "%d:%d:%d:%d" (int_of_n ct) (if k then 1 else 0) (int_of_n sz) (int_of_z mt) in
+      let n = List.length p in
+      let states = List.init (n + 1) (fun k ->
+        let s = crash_state e (zint now) p (nat_of_int k) s0 in
+        Printf.sprintf "%s;%s;%d" (show s.cs_dest) (show s.cs_temp) (if replans c e s.cs_dest then 1 else 0)) in
+      Printf.sprintf "ok=%d temp=%d states=%s" (if program_ok c e d0 p then 1 else 0) (if uses_temp c d0 then 1 else 0) (String.concat "|" states)
   | _ -> "BADCASE"
 
 let () =
